@@ -94,6 +94,10 @@ def extras(fmt, add):
     for n in (4, 5):
         add(nsteps=n)
         add(nsteps=n, start=2)
+    # many steps on a very small grid (step-count arithmetic that is only nearly right shows here first)
+    add(nsteps=12, shape=[1, 2, 1])
+    add(nsteps=9, shape=[2, 2, 1])
+    add(nsteps=13, shape=[2, 2, 2])
     if fmt in ('uamiv', 'lateral_boundary'):
         # hour-24 stamping of steps that end at midnight
         for n in (1, 2, 3):
